@@ -489,11 +489,15 @@ def shard_views_case(rng, sess: Session):
     w = rng.choice([2, 3, 4, 8])
     serial = [0]
 
+    ties = rng.random() < 0.5  # repeated utterances: exactly equal scores, stored in an order that is not the id order (s9 < s10 ...)
+    serial[0] = rng.choice([0, 7, 97])
+
     def mk(n):
         out = []
         for _ in range(n):
             serial[0] += 1
-            out.append({"id": f"s{serial[0]}", "owner": rng.choice(["A", "A", "B", "world"]), "text": " ".join(rng.sample(["hello", "world", "cat", "moon", "river", "tree"], 3)) + f" {serial[0]}",
+            out.append({"id": f"s{serial[0]}", "owner": rng.choice(["A", "A", "B", "world"]),
+                        "text": rng.choice(["hello world", "cat moon", "river tree"]) if ties else " ".join(rng.sample(["hello", "world", "cat", "moon", "river", "tree"], 3)) + f" {serial[0]}",
                         "ts": "2023-0%d-1%d T00:00:00Z".replace(" ", "") % (rng.randint(1, 9), rng.randint(0, 9)), "vec": "enc", "aux": {"importance": 0.5}})
         return out
 
@@ -515,7 +519,9 @@ def shard_views_case(rng, sess: Session):
             got += [e.get("id") for e in (v._eps if v is idx else v._episodes)]
         sess.evaluations += 1
         sess.count("shard_view_checks")
-        case = {"ops": list(ops), "workers": w, "n": len(idx._eps)}
+        case = {"ops": list(ops), "workers": w, "n": len(idx._eps), "ties": ties}
+        if ties:
+            sess.count("shard_view_checks_with_tied_scores")
         if len(views) >= 2:
             sess.count("shard_view_checks_2plus_views")
             sess.nontrivial.add(chash(("views", tuple(ops), w, len(idx._eps))))
